@@ -123,6 +123,12 @@ func compressJobs(tier, prop string) []*Job {
 		}
 		periodic([]int{0, 1, 3, 4}, func(n int) []int { return []int{-1} })
 		litrun([]int{0, 3}, func(l, n int) []int { return []int{-1} })
+		// long-literal-run family: 66070 incompressible bytes (a literal-length code with 259
+		// extension bytes) followed by an 8 KiB run and two symbolic bytes, fast compressor
+		addP(66070+8192+2, 0, 0, -1, -66070, 2, "verif,noasm")
+		jobs[len(jobs)-1].Unwind = 3000000
+		addP(66070+8192+2, 0, 0, -1, -66070, 2, "verif")
+		jobs[len(jobs)-1].Unwind = 3000000
 		jobs = append(jobs, histJobs(tier)...)
 		// window family: sources just over 64 KiB (concrete periodic filler) holding the same
 		// 8-byte window twice, 65534..65537 bytes apart, the second copy where the scan probes
@@ -139,6 +145,8 @@ func compressJobs(tier, prop string) []*Job {
 			jobs[len(jobs)-1].Unwind = 3000000
 		}
 	case "C10":
+		addP(66070+8192+2, 0, 0, -1, -66070, 2, "verif,noasm") // long-literal-run family
+		jobs[len(jobs)-1].Unwind = 3000000
 		for n := 0; n <= nf-1; n++ {
 			for _, dl := range []int{-1, -2, n, n - 3, n / 2} {
 				if dl < -2 || (dl >= 0 && dl > n) {
@@ -332,6 +340,18 @@ func histJobs(tier string) []*Job {
 			jobs = append(jobs, j)
 		}
 	}
+	// ... and block-size inputs (64 KiB blocks, concrete compressible filler, two symbolic tail
+	// bytes): one Write against a short Write followed by one that holds a full block and more
+	// (the zero-copy path with bytes pending), and against two other split points
+	for i, c := range [][3]int{{65536 + 100, 17, 0}, {131072 + 5, 65535, 1}, {65536 + 100, 65536, 1}, {70000, 1, 2}} {
+		if tier != "thorough" && i >= 2 {
+			continue
+		}
+		j := mkJob(fmt.Sprintf("fdet-big-n%d-k%d-d%d", c[0], c[1], c[2]), "H_frame_det", "", "verif,noasm",
+			P("n", c[0], "period", -1200, "bs", 4, "bc", i%2, "cc", 1, "sizeopt", 0, "level", 0, "legacy", 0, "delivA", 0, "delivB", 1, "k", 0, "k2", c[1]))
+		j.Unwind = 3000000
+		jobs = append(jobs, j)
+	}
 	return jobs
 }
 
@@ -354,6 +374,7 @@ func compressBounds(prop string) func(string) []string {
 		}
 		return []string{
 			fmt.Sprintf("every source content (all bytes symbolic) at each length 0..%d for the fast compressor and 0..%d for the HC compressor (depths 0, 1, 2, 3, 512, 65537)", nf, nh),
+			"long-literal-run family (C01, C10): 66070 concrete incompressible bytes, an 8 KiB run of one byte, two symbolic bytes; fast compressor (a literal-length code with 259 extension bytes)",
 			"match-length family: a run of one byte whose length the solver chooses among 17 values, followed by at least 20 concrete distinct bytes (n = 48, 303, 558: runs 12..28, 267..283, 522..538): the long match takes every length around 4+15, 4+15+255 and 4+15+510, where its length code gains an extension byte; content concrete; fast and HC",
 			"periodic family: sources of 24..300 (thorough ..560) bytes = a symbolic first period (1,2,3 bytes) repeated, plus 0..13 free symbolic bytes at the end (0..5 for reused-state, HC and 560-byte runs) (long matches, multi-byte length codes, matches running into the last 5/12 bytes)",
 			"literal-run family: a literal run of exactly l concrete repeat-free bytes (l around 15 and 15+255: 13..17, 30, 269..271) followed by a match and 0/2 symbolic bytes, with destination lengths 0..5, l..l+8, n/2, bound-2..bound (C11)",
@@ -407,7 +428,7 @@ func init() {
 		Bounds: func(tier string) []string {
 			return append(compressBounds("C14")(tier), "frame level, concurrency: for ConcurrencyOption 2, 3 (thorough 4) and 13 call sequences of Write/Flush/ReadFrom/Close/Reset on 20- and 10-byte chunks (and one 64 KiB + 20 input), under every schedule with at most 2 (thorough 3) delays, the emitted bytes equal those of the same calls on a sequential Writer")
 		},
-		Outside:  append([]string{"frame level: schedules beyond the delay bound; symbolic content under concurrency (content is concrete there); the sequential clause covers one Write, two Writes at two split points, byte by byte"}, compressOutside...),
+		Outside:  append([]string{"frame level: schedules beyond the delay bound; symbolic content under concurrency (content is concrete there); the sequential clause covers one Write, two Writes at two split points, byte by byte, and for 64 KiB blocks inputs of 65636 / 131077 (thorough also 70000) bytes split at 17 / 65535 (65536 / 1)"}, compressOutside...),
 		Assumptions: append([]string{concAssumptions[0], concAssumptions[1]}, compressAssumptions...),
 		Filter:      func(id string) bool { return !hasPrefix(id, "conc-") && !hasPrefix(id, "cfault-") },
 	}
